@@ -17,6 +17,7 @@ SHAPES = {
     "fork3": (3, {1: [0], 2: [0]}),
     "join3": (3, {2: [0, 1]}),
     "mid3": (3, {0: [2], 1: [0]}),
+    "tri3": (3, {1: [0], 2: [0, 1]}),
     "cycle2p1": (3, {0: [1], 1: [0]}),
     "diamond4": (4, {1: [0], 2: [0], 3: [1, 2]}),
     "chain4": (4, {1: [0], 2: [1], 3: [2]}),
